@@ -239,7 +239,12 @@ impl Polynomial<Cmplx> {
             roots[1] = roots[0];
             roots[2] = roots[0];
         } else {
-            let sqrt = (- 27. * a * a * dis).sqrt();
+            // -27 a^2 * discriminant = d1^2 - 4 d0^3. For clustered roots the expanded discriminant above is
+            // nothing but rounding noise while d1^2 - 4 d0^3 keeps its accuracy ( d1^2 << 4 d0^3 ); when the
+            // two terms nearly cancel it is the other way round
+            let ( t1, t2 ) = ( d1 * d1, 4. * d0 * d0 * d0 );
+            let radicand = if ( t1 - t2 ).abs() >= 1.0e-3 * ( t1.abs() + t2.abs() ) { t1 - t2 } else { - 27. * a * a * dis };
+            let sqrt = radicand.sqrt();
             // take the sign that avoids cancellation, i.e. the candidate of larger modulus
             let ( plus, minus ) = ( d1 + sqrt, d1 - sqrt );
             let base = if plus.abs() >= minus.abs() { plus } else { minus } / 2.;
